@@ -1,17 +1,23 @@
 """C10 — external tensor reads never escape the model directory (DESIGN.md section 5, C10).
 
-Correspondence: a real temp tree (canary files outside the base, symlinks in/out, symlinked
-directories, hard links, a sibling whose name has the base as prefix) is described to the Lean model
-`IrVerif.Path` (driver commands path.*); for every generated (cwd, base spelling, location, entry
-point) the model's verdict (which layer rejects / open fails / bytes) is compared with the real
-`ExternalTensor` read; the string functions (normpath, join, abspath, dirname, split) are compared
-with CPython's posixpath; `ir.load` with absolute / relative / bare model paths is compared with the
-model's base-directory derivation.
+Correspondence (model = lean/IrVerif/Model/Path.lean, driver commands path.*):
+  * string functions (normpath, join, abspath, dirname, split) vs CPython posixpath; realpath / lstat / stat of the model
+    vs os.path.realpath and the kernel, on a fixed tree and on random trees;
+  * every real ExternalTensor read vs the model's read on a description of the same tree: accept/reject, bytes, which
+    layer rejects, whether the tensor's own path was opened by the call and which inode that reached (audit hook);
+    trees contain canaries outside the base, symlinks in/out, symlinked directories, hard links, a prefix sibling,
+    a FIFO and a device node inside the base;
+  * sequences on one tensor (calls of all entry points, changes of the tree, base_dir re-assignments incl. "" , release())
+    vs the model's sessions;
+  * ir.load with every model-path spelling (incl. "<symlinked dir>/.."), chdir between load and read, models whose
+    external tensors sit in initializers / TENSOR / TENSORS attributes of the main graph, of nested graphs (depth 1-3) and
+    of model-local functions; the walker behind set_base_dir vs the model's walker.
 
-Oracle (independent of the model): bytes returned by a read are never a canary and are the bytes of
-a singly-linked regular file whose true location (known by construction of the tree) is below the
-true location of the base; a rejected read performed no `open` of any file of the tree
-(`sys.addaudithook`); an accepted read opened only inside files.
+Oracle (independent of the model): returned bytes are those of a singly-linked REGULAR file whose true location (known by
+construction of the tree) is below the true location of the base; a rejected read opened no file of the tree, an accepted
+one only inside files (sys.addaudithook); after ir.load every external tensor anywhere in the model has a non-empty base
+that is the directory the model file was opened from; in sequences, bytes come from the file opened by the call or mapped
+by an earlier call under the SAME base directory.
 """
 from __future__ import annotations
 
@@ -33,6 +39,8 @@ THEOREMS = [
     "IrVerif.Path.C10_read_safe",
     "IrVerif.Path.C10_open_safe",
     "IrVerif.Path.C10_all_entry_points",
+    "IrVerif.Path.C10_single_name",
+    "IrVerif.Path.C10_base_resolves",
     "IrVerif.Path.C10_load_base_nonempty",
     "IrVerif.Path.C10_load_base_is_model_dir",
     "IrVerif.Path.C10_load_read_safe",
@@ -44,18 +52,25 @@ THEOREMS = [
 ]
 ASSUMPTIONS = [
     "POSIX only: os.path.normcase is the identity; Windows/ntpath behaviour is not modelled",
-    "no concurrent modification of the tree between the check and the open (TOCTOU is outside the model)",
+    "no concurrent modification of the tree between the check and the open of one call (TOCTOU is outside the model); changes "
+    "BETWEEN calls are modelled (sessions)",
     "path strings contain no NUL character (NUL locations are exercised by the oracle only)",
     "CPython 3.12 posixpath semantics (join, normpath, abspath, split/dirname, realpath/_joinrealpath with its seen cache) "
     "as transcribed; the kernel's path resolution (path_resolution(7): lookup in directories, '..' at the root, symlink "
-    "following, trailing separators, ENOTDIR/ENOENT/ELOOP as a nesting bound) is a hand-written model validated against "
-    "os.lstat/os.stat/os.path.realpath on fixed and random trees",
+    "following, trailing separators, ENOTDIR/ENOENT, ELOOP modelled as a bound on the NESTING of symlink expansions rather than "
+    "Linux's total of 40) is a hand-written model validated against os.lstat/os.stat/os.path.realpath on fixed and random trees",
     "os.getcwd() names a chain of real directories (true on POSIX); theorems about reads assume the Python recursion "
     "bound is at least the kernel's symlink bound",
-    "a tensor that is already mapped is served from its mapping (no new open, no new check): it keeps returning the bytes of "
-    "the inode it mapped through a checked open even if the path or base_dir changes afterwards (modelled and proved as such; "
-    "by design of the mmap cache)",
-    "file permissions, mount points, special files and st_nlink of directories beyond what the tree reports are not modelled",
+    "an ABSOLUTE location that lies inside the base directory is accepted (join(base, abs) = abs, check 1 passes): the "
+    "property's 'absolute paths raise' is read as 'absolute paths leading outside the base raise'",
+    "an empty base directory disables the checks by design (programmatic construction); the theorems and the oracle are about "
+    "calls made while the tensor has a non-empty base directory; re-assigning base_dir drops the mapping (D184) so that bytes "
+    "always come from an open checked against the tensor's current base directory",
+    "a tensor that is already mapped is served from its mapping (no new open, no new check) while its base directory is unchanged, "
+    "even if the tree changes afterwards: it keeps returning the bytes of the inode it mapped through a checked open",
+    "zero-size tensors (nothing is mapped or copied) are exercised by the oracle only; the models of the entry points are for size > 0",
+    "st_nlink counts the names of an inode (LinkCountSound; checked on every described tree); file permissions, mount points and "
+    "bind mounts are not modelled; FIFOs, sockets and device nodes are modelled as one kind of non-regular object",
 ]
 
 NBYTES = 8
@@ -368,6 +383,7 @@ def oracle(part, tree: dict, desc: dict, case: dict, obs: dict, true_base: str |
 
     in_tree = [p for p in obs["opened"] if (posixpath.normpath(p) + "/").startswith(tree["top"] + "/") or true_location(p, R) in inos]
     off, ln = case.get("offset", 0) or 0, case.get("length", NBYTES)
+    ln = NBYTES if ln is None else ln
     if obs["r"] == "ok":
         ok_inside = [info for key, info in inos.items() if inside(key) and info["data"][off:off + (ln if ln is not None else NBYTES)] == obs["bytes"]]
         if not ok_inside:
